@@ -65,7 +65,7 @@ def generate(rng, tier):
                           p_helper=rng.choice([0.1, 0.3]))
     cfg['n_modules'] = (1, 2)
     cfg['n_funcs'] = (1, 3)
-    cfg['forms'] = list(gen.SIMPLE_FORMS) + ['emitop', 'emitop', 'blankprompt', 'blankprompt']
+    cfg['forms'] = list(gen.SIMPLE_FORMS) + ['emitop', 'emitop', 'blankprompt', 'blankprompt', 'withswap', 'reprexpr', 'reprexpr']
     if rng.random() < 0.2:
         cfg['async_forms'] = list(gen.ASYNC_FORMS)
         cfg['p_async'] = 0.3
